@@ -307,7 +307,8 @@ def jobs(tier):
                 ('upper', 'jsx'): (CLS, RAW), ('custom-map', 'jsx'): (CLS, ID),
                 ('default', 'jsx'): (CLS, RAW, EXPR), ('default', 'vue'): (CLS, RAW), ('default', 'xml'): (NOVAL, BOOL, RAW)}
     for (o, syn) in combos:
-        for k1 in (relevant[(o, syn)] if q else range(NKIND)):
+        newer = (o, syn) in (('upper-map', 'html'), ('compact-upper', 'html'), ('reverse-single', 'html'), ('upper', 'jsx'), ('custom-map', 'jsx'))
+        for k1 in (relevant[(o, syn)] if (q or newer) else range(NKIND)):
             out.append(Job('C03-a/merge/K=%d,%s,%s,k1=%d' % (K, o, syn, k1), 'vf.props.c03:mk_merge',
                            dict(K=K, optset=o, syntax=syn, k1fix=k1), shape='H', bound='K=%d mentions' % K,
                            budget=900 if q else 3000, weight=100))
